@@ -510,7 +510,7 @@ def run_property(mod, tier: str, seed: int, replay: str | None = None) -> int:
         shutil.rmtree(workdir, ignore_errors=True)
 
 
-def shrink(mod, modname, case, hs, key, budget: int = 150):
+def shrink(mod, modname, case, hs, key, budget: int = 900):
     """Greedy delta debugging: keep a smaller case while the oracle still reports `key`."""
     cur = case
     steps = 0
